@@ -50,6 +50,8 @@ pub fn eval_pp(t: &mut PTables, w: &[&str]) -> Option<Obs> {
         }
         ["default", id] => { set_at(&mut t.tab, id.parse().ok()?, PollingParameterNumberMessageScanner::default()); Some(ok_obs()) }
         ["copy", a, b] => { let x = (*t.tab.get(a.parse::<usize>().ok()?)?)?; set_at(&mut t.tab, b.parse().ok()?, x); Some(ok_obs()) }
+        #[allow(clippy::clone_on_copy)]
+        ["clone", a, b] => { let x = (*t.tab.get(a.parse::<usize>().ok()?)?)?; let y = Clone::clone(&x); set_at(&mut t.tab, b.parse().ok()?, y); Some(ok_obs()) }
         ["c12begin", _id, _ch] => Some(ok_obs()),
         ["tick", d] => { crate::clock::advance(d.parse().ok()?); Some(ok_obs()) }
         ["settime", x] => { set_now_nanos(x.parse().ok()?); Some(ok_obs()) }
@@ -272,10 +274,15 @@ pub fn random_histories(out: &mut Out, seed: u64, histories: usize, len: usize, 
                 out.req("pp reset 1");
                 out.req(&format!("pp {} 1 {}", if strict_reset { "mustbenew" } else { "isnew" }, tstr));
             } else if r < 4 {
-                out.req("pp copy 1 2"); copied = true;
+                out.req(if rng.below(2) == 0 { "pp copy 1 2" } else { "pp clone 1 2" }); copied = true;
+                out.req("pp same 2 1");     // a copy / clone equals its original (real ==)
             } else if r < 7 && copied {
-                let (s, d1, d2) = random_msg(&mut rng, chans);
-                out.req(&format!("pp feed 2 {} {} {} {}", which, s, d1, d2));
+                if rng.below(3) == 0 {
+                    out.req(&format!("pp poll 2 {}", rng.below(chans)));
+                } else {
+                    let (s, d1, d2) = random_msg(&mut rng, chans);
+                    out.req(&format!("pp feed 2 {} {} {} {}", which, s, d1, d2));
+                }
             } else if r < 25 {
                 let c = rng.below(chans);
                 out.req("pp copy 1 3");
